@@ -6,7 +6,7 @@ PROPS_MODULE = "Q1t.Props.C01"
 # the key theorems of Q1t/Props/C01.lean (their absence fails the check)
 REQUIRED = ["histogram_gf_unconditional", "histogram_gf_abstract", "prob0_eq_born", "exec_gf_partial", "histogram_gf_partial", "zero_prob_never_partial", "exec_total_partial", "hyps_arith_complex",
             "histogram_gf_example", "histogram_gf_example_measure_all", "histogram_gf_example_measure_all_X",
-            "stab_histogram_gf_partial", "stab_exec_gf_partial", "backends_agree_partial", "stab_histogram_gf_example", "stab_histogram_gf_example_measure_all", "stab_histogram_gf_generated",
+            "stab_histogram_gf_partial", "stab_exec_gf_partial", "backends_agree_partial", "stab_histogram_gf_example", "stab_histogram_gf_example_measure_all", "stab_histogram_gf_generated", "stab_histogram_gf_generated_unconditional",
             "final_peek_histogram_partial", "final_peek_unconditional", "single_peek_then_measure_not_multinomial", "peek_peek_not_multinomial", "measure_resetall_measure_not_multinomial",
             "stab_reset_bell_not_born", "stab_peekall_bell_zero_prob_value"]
 ALARM_P = 1e-9
